@@ -1,5 +1,505 @@
-import Solvor.Backend.Model
-/-! Backend: property theorems only (helper lemmas live in Lemmas.lean). -/
+import Solvor.Backend.StructLemmas
+import Solvor.Backend.PrLemmas
+import Solvor.Gen.BackendConsts
+/-!
+Backend (C12): property theorems only.
+
+Layer T-spec: every `check…` function of `Model.lean` accepts an output only if it has the
+spec-level meaning (`…_sound`).  Layer `obs_unique_*`: for one input, any two accepted outputs
+have the same observable – so whichever back-end produced them, accepted results cannot differ
+in meaning.  Layer `adapter_*`: the preprocessing / result conversion of
+`solvor/rust/adapters.py` hands the kernel the same problem the python code solves (and the
+negation, with a `decide` witness, for the adapter as it was on the unchanged tree).
+-/
 namespace Solvor.Backend
+open Solvor.Gen (Status)
+
+/-! ### Reachability -/
+
+/-- the executable closure computation decides reachability on valid inputs -/
+theorem reachB_decides {n : Nat} {es : List WEdge} (hv : validW n es = true) (s v : Nat) :
+    reachB n es s v = true ↔ Reach es s v := reachB_iff hv
+
+example : reachB 4 [(0, 1, 1), (1, 2, 1), (3, 0, 1)] 0 2 = true ∧ reachB 4 [(0, 1, 1), (1, 2, 1), (3, 0, 1)] 0 3 = false := by
+  decide
+
+/-! ### Single-source distances (`dijkstra_edges`, `bellman_ford` without target) -/
+
+/-- T-spec: an accepted vector has length `n` and holds the exact shortest distance of every node
+(`none` exactly for the unreachable ones) -/
+theorem checkDist_sound {n : Nat} {es : List WEdge} {s : Nat} {d : List (Option Int)} {lvl : List Nat}
+    (h : checkDist n es s d lvl = true) : d.length = n ∧ ∀ v, v < n → IsDist es s v (dAt d v) :=
+  checkDist_sound' h
+
+example : checkDist 3 [(0, 1, 5), (1, 2, -2), (0, 2, 4), (0, 1, 7), (2, 2, 0)] 0 [some 0, some 5, some 3] [0, 1, 2] = true := by
+  decide
+
+/-- any two accepted distance vectors for the same input are equal -/
+theorem obs_unique_dist {n : Nat} {es : List WEdge} {s : Nat} {d1 d2 : List (Option Int)} {l1 l2 : List Nat}
+    (h1 : checkDist n es s d1 l1 = true) (h2 : checkDist n es s d2 l2 = true) : d1 = d2 := by
+  obtain ⟨hl1, hd1⟩ := checkDist_sound h1
+  obtain ⟨hl2, hd2⟩ := checkDist_sound h2
+  exact dist_ext hl1 hl2 fun v hv => isDist_unique (hd1 v hv) (hd2 v hv)
+
+example : checkDist 3 [(0, 1, 5), (1, 2, -2), (0, 2, 3)] 0 [some 0, some 5, some 3] [0, 1, 2] = true ∧
+    checkDist 3 [(0, 1, 5), (1, 2, -2), (0, 2, 3)] 0 [some 0, some 5, some 3] [0, 7, 9] = true := by decide
+
+/-- T-spec: an accepted negative-cycle certificate is a negative closed walk reachable from `s` -/
+theorem checkNegCycle_spec {n : Nat} {es : List WEdge} {s : Nat} {cyc : List Nat}
+    (h : checkNegCycle n es s cyc = true) : NegCycleFrom es s := checkNegCycle_sound h
+
+example : checkNegCycle 3 [(0, 1, 1), (1, 2, -3), (2, 1, 1)] 0 [1, 2, 1] = true := by decide
+
+/-- the status is determined by the input: UNBOUNDED (a reachable negative cycle) and a distance
+vector can never both be accepted -/
+theorem obs_unique_sssp_status {n : Nat} {es : List WEdge} {s : Nat} {d : List (Option Int)} {lvl cyc : List Nat}
+    (h1 : checkDist n es s d lvl = true) (h2 : checkNegCycle n es s cyc = true) : False := by
+  have := negCycle_no_pot (checkNegCycle_sound h2) d
+  rw [checkDist_pot h1] at this
+  cases this
+
+/-! ### All pairs (`floyd_warshall`) -/
+
+theorem checkFw_row {n : Nat} {es : List WEdge} {M : List (List (Option Int))} {lvls : List (List Nat)}
+    (h : checkFw n es M lvls = true) {i : Nat} (hi : i < n) :
+    checkDist n es i (M.getD i []) (lvls.getD i []) = true := by
+  unfold checkFw at h
+  simp only [Bool.and_eq_true, List.all_eq_true, List.mem_range] at h
+  exact h.2 i hi
+
+/-- T-spec: entry `(i, j)` of an accepted matrix is the exact shortest distance from `i` to `j` -/
+theorem checkFw_sound {n : Nat} {es : List WEdge} {M : List (List (Option Int))} {lvls : List (List Nat)}
+    (h : checkFw n es M lvls = true) :
+    M.length = n ∧ ∀ i j, i < n → j < n → IsDist es i j (dAt (M.getD i []) j) := by
+  refine ⟨?_, fun i j hi hj => (checkDist_sound (checkFw_row h hi)).2 j hj⟩
+  unfold checkFw at h
+  simp only [Bool.and_eq_true, beq_iff_eq] at h
+  exact h.1
+
+example : checkFw 2 [(0, 1, 5), (0, 1, 2), (1, 0, -1)] [[some 0, some 2], [some (-1), some 0]] [[0, 1], [1, 0]] = true := by
+  decide
+
+/-- any two accepted distance matrices for the same input are equal -/
+theorem obs_unique_fw {n : Nat} {es : List WEdge} {M1 M2 : List (List (Option Int))} {L1 L2 : List (List Nat)}
+    (h1 : checkFw n es M1 L1 = true) (h2 : checkFw n es M2 L2 = true) : M1 = M2 := by
+  have hl1 := (checkFw_sound h1).1
+  have hl2 := (checkFw_sound h2).1
+  apply List.ext_getElem (by omega)
+  intro i hi1 hi2
+  have := obs_unique_dist (checkFw_row h1 (i := i) (by omega)) (checkFw_row h2 (i := i) (by omega))
+  simpa [List.getD_eq_getElem?_getD, hi1, hi2] using this
+
+/-- … and UNBOUNDED (a negative closed walk somewhere) excludes every accepted matrix -/
+theorem obs_unique_fw_status {n : Nat} {es : List WEdge} {M : List (List (Option Int))} {L : List (List Nat)}
+    {cyc : List Nat} (h1 : checkFw n es M L = true) (h2 : checkFwNeg n es cyc = true) : False := by
+  unfold checkFwNeg at h2
+  cases cyc with
+  | nil => cases h2
+  | cons c rest =>
+    simp only at h2
+    have hc : c < n := by
+      unfold checkNegCycle at h2
+      simp only [Bool.and_eq_true, decide_eq_true_eq] at h2
+      exact h2.1.2
+    exact obs_unique_sssp_status (checkFw_row h1 hc) h2
+
+example : checkFwNeg 2 [(0, 1, 1), (1, 0, -2)] [1, 0, 1] = true := by decide
+
+/-! ### Single pair (`dijkstra_edges`, `bellman_ford`, `bfs_edges` with a target) -/
+
+/-- T-spec for the three outcome kinds -/
+theorem checkPair_sound {n : Nat} {es : List WEdge} {s t : Nat} {o : PairOut} {pot : List (Option Int)}
+    {cyc : List Nat} (h : checkPair n es s t o pot cyc = true) :
+    match o with
+    | .found _ x => Walk es s t x ∧ IsDist es s t (some x) ∧ ¬ NegCycleFrom es s
+    | .infeasible => IsDist es s t none ∧ ¬ NegCycleFrom es s
+    | .unbounded => NegCycleFrom es s := by
+  unfold checkPair at h
+  simp only [Bool.and_eq_true, decide_eq_true_eq] at h
+  obtain ⟨⟨⟨hval, hs⟩, ht⟩, ho⟩ := h
+  cases o with
+  | found p x =>
+    simp only [Bool.and_eq_true, beq_iff_eq] at ho
+    obtain ⟨⟨hpot, hdt⟩, hpath⟩ := ho
+    have hw := pathOK_walk hpath
+    refine ⟨hw, ⟨hw, fun y hy => ?_⟩, fun hc => ?_⟩
+    · obtain ⟨b, hb, hle⟩ := pot_lower hpot hy
+      rw [hdt] at hb
+      cases hb
+      exact hle
+    · have := negCycle_no_pot hc pot
+      rw [hpot] at this
+      cases this
+  | infeasible =>
+    simp only [Bool.and_eq_true, beq_iff_eq] at ho
+    obtain ⟨hpot, hdt⟩ := ho
+    refine ⟨?_, fun hc => ?_⟩
+    · rintro ⟨y, hy⟩
+      obtain ⟨b, hb, _⟩ := pot_lower hpot hy
+      rw [hdt] at hb
+      cases hb
+    · have := negCycle_no_pot hc pot
+      rw [hpot] at this
+      cases this
+  | unbounded =>
+    have : checkNegCycle n es s cyc = true := by
+      unfold checkNegCycle
+      simp only [Bool.and_eq_true, decide_eq_true_eq]
+      exact ⟨⟨hval, hs⟩, ho⟩
+    exact checkNegCycle_sound this
+
+example : checkPair 3 [(0, 1, 5), (1, 2, -2), (0, 2, 4)] 0 2 (.found [0, 1, 2] 3) [some 0, some 5, some 3] [] = true ∧
+    checkPair 3 [(0, 1, 5)] 0 2 .infeasible [some 0, some 5, none] [] = true ∧
+    checkPair 3 [(0, 1, 1), (1, 2, -3), (2, 1, 1)] 0 2 .unbounded [] [1, 2, 1] = true := by decide
+
+/-- two accepted outcomes for the same query have the same status class and the same objective
+(the returned paths may differ; each is a walk of exactly that weight) -/
+theorem obs_unique_pair {n : Nat} {es : List WEdge} {s t : Nat} {o1 o2 : PairOut}
+    {p1 p2 : List (Option Int)} {c1 c2 : List Nat}
+    (h1 : checkPair n es s t o1 p1 c1 = true) (h2 : checkPair n es s t o2 p2 c2 = true) : o1.obs = o2.obs := by
+  have s1 := checkPair_sound h1
+  have s2 := checkPair_sound h2
+  cases o1 <;> cases o2 <;> simp only [PairOut.obs] at * <;>
+    first
+    | rfl
+    | exact absurd s2 s1.2.2
+    | exact absurd s1 s2.2.2
+    | exact absurd s2 s1.2
+    | exact absurd s1 s2.2
+    | (have := isDist_unique s1.2.1 s2.2.1; simp_all)
+    | (have := isDist_unique s1.2.1 s2.1; cases this)
+    | (have := isDist_unique s1.1 s2.2.1; cases this)
+
+example : checkPair 3 [(0, 1, 2), (1, 2, 2), (0, 2, 4)] 0 2 (.found [0, 1, 2] 4) [some 0, some 2, some 4] [] = true ∧
+    checkPair 3 [(0, 1, 2), (1, 2, 2), (0, 2, 4)] 0 2 (.found [0, 2] 4) [some 0, some 2, some 4] [] = true := by decide
+
+/-! ### Reachable sets (`bfs_edges`, `dfs_edges` without target) and DFS paths -/
+
+/-- T-spec: the accepted list is *the* strictly increasing enumeration of the nodes reachable from `s` -/
+theorem checkReachList_sound {n : Nat} {es : List WEdge} {s : Nat} {xs : List Nat}
+    (h : checkReachList n es s xs = true) :
+    xs.Pairwise (· < ·) ∧ ∀ v, v ∈ xs ↔ (v < n ∧ Reach es s v) := by
+  unfold checkReachList at h
+  simp only [Bool.and_eq_true, beq_iff_eq, decide_eq_true_eq] at h
+  obtain ⟨⟨hv, _⟩, rfl⟩ := h
+  exact ⟨pairwise_reachSorted n es s, fun v => mem_reachSorted hv⟩
+
+theorem obs_unique_reach {n : Nat} {es : List WEdge} {s : Nat} {xs ys : List Nat}
+    (h1 : checkReachList n es s xs = true) (h2 : checkReachList n es s ys = true) : xs = ys := by
+  unfold checkReachList at h1 h2
+  simp only [Bool.and_eq_true, beq_iff_eq] at h1 h2
+  rw [h1.2, h2.2]
+
+example : checkReachList 4 [(0, 2, 1), (0, 1, 1), (3, 0, 1)] 0 [0, 1, 2] = true ∧
+    checkReachList 4 [(0, 2, 1), (0, 1, 1), (3, 0, 1)] 0 [0, 2, 1] = false := by decide
+
+/-- T-spec for `dfs_edges` with a target: an accepted path is a walk `s … t`; INFEASIBLE is
+accepted only when `t` is unreachable -/
+theorem checkAnyPath_sound {n : Nat} {es : List WEdge} {s t : Nat} {o : Option (List Nat)}
+    (h : checkAnyPath n es s t o = true) :
+    match o with
+    | some p => p.head? = some s ∧ Reach es s t
+    | none => ¬ Reach es s t := by
+  unfold checkAnyPath at h
+  simp only [Bool.and_eq_true, decide_eq_true_eq] at h
+  obtain ⟨⟨⟨hval, _⟩, _⟩, ho⟩ := h
+  cases o with
+  | none =>
+    simp only [Bool.not_eq_true'] at ho
+    intro hr
+    rw [(reachB_iff hval).2 hr] at ho
+    cases ho
+  | some p =>
+    cases p with
+    | nil => simp at ho
+    | cons u rest =>
+      simp only [Bool.and_eq_true, beq_iff_eq] at ho
+      obtain ⟨⟨hu, hl⟩, hw⟩ := ho
+      refine ⟨by simp [hu], ?_⟩
+      cases hx : walkMinW es u rest with
+      | none => simp [hx] at hw
+      | some x =>
+        have := walkMinW_walk rest u x hx
+        rw [hl, hu] at this
+        exact ⟨x, this⟩
+
+/-- found / not found is determined by the input (the paths themselves may differ, each is valid) -/
+theorem obs_unique_anypath {n : Nat} {es : List WEdge} {s t : Nat} {o1 o2 : Option (List Nat)}
+    (h1 : checkAnyPath n es s t o1 = true) (h2 : checkAnyPath n es s t o2 = true) :
+    o1.isSome = o2.isSome := by
+  have s1 := checkAnyPath_sound h1
+  have s2 := checkAnyPath_sound h2
+  cases o1 <;> cases o2 <;> simp only [Option.isSome] <;>
+    first
+    | rfl
+    | exact absurd s2.2 s1
+    | exact absurd s1.2 s2
+
+example : checkAnyPath 4 [(0, 1, 1), (1, 2, 1), (0, 2, 1), (2, 3, 1)] 0 3 (some [0, 1, 2, 3]) = true ∧
+    checkAnyPath 4 [(0, 1, 1), (1, 2, 1), (0, 2, 1), (2, 3, 1)] 0 3 (some [0, 2, 3]) = true ∧
+    checkAnyPath 4 [(0, 1, 1), (1, 2, 1), (0, 2, 1), (2, 3, 1)] 3 0 none = true := by decide
+
+/-! ### Minimum spanning forests (`kruskal`) -/
+
+/-- T-spec: an accepted result is a minimum spanning forest of the multigraph, its objective is
+the forest's weight, and the status says whether the graph is connected -/
+theorem checkMst_sound {n : Nat} {es : List WEdge} {allow : Bool} {st : Status} {F : Option (List WEdge)}
+    {total : Option Int} (h : checkMst n es allow st F total = true) :
+    match st, F, total with
+    | .OPTIMAL, some F, some x => (∀ v, v < n → Reach (symW es) 0 v) ∧ IsMinSpanningForest es F ∧ x = weightOf F
+    | .FEASIBLE, some F, some x =>
+        ¬ (∀ v, v < n → Reach (symW es) 0 v) ∧ allow = true ∧ IsMinSpanningForest es F ∧ x = weightOf F
+    | .INFEASIBLE, none, none => ¬ (∀ v, v < n → Reach (symW es) 0 v) ∧ allow = false
+    | _, _, _ => False := by
+  unfold checkMst at h
+  simp only [Bool.and_eq_true, decide_eq_true_eq] at h
+  obtain ⟨⟨hval, _⟩, ho⟩ := h
+  cases st <;> cases F <;> cases total <;>
+    simp only [Bool.and_eq_true, beq_iff_eq, Bool.not_eq_true', Bool.false_eq_true] at ho ⊢ <;>
+    first
+    | exact ho
+    | (obtain ⟨⟨hc, hm⟩, hx⟩ := ho
+       exact ⟨(connectedB_iff hval).1 hc, (isMinForest_iff hval).1 hm, hx⟩)
+    | (obtain ⟨⟨⟨hc, ha⟩, hm⟩, hx⟩ := ho
+       refine ⟨fun hcon => ?_, ha, (isMinForest_iff hval).1 hm, hx⟩
+       rw [(connectedB_iff hval).2 hcon] at hc
+       cases hc)
+    | (obtain ⟨hc, ha⟩ := ho
+       refine ⟨fun hcon => ?_, ha⟩
+       rw [(connectedB_iff hval).2 hcon] at hc
+       cases hc)
+
+example : checkMst 3 [(0, 1, 5), (1, 2, 2), (0, 2, 4), (0, 0, 1), (2, 1, 2)] false .OPTIMAL (some [(1, 2, 2), (0, 2, 4)]) (some 6) = true ∧
+    checkMst 3 [(0, 1, 5)] true .FEASIBLE (some [(0, 1, 5)]) (some 5) = true ∧
+    checkMst 3 [(0, 1, 5)] false .INFEASIBLE none none = true := by decide
+
+/-- two accepted `kruskal` results for the same input have the same status and the same total
+weight (the edge sets may differ when weights tie; each is a minimum spanning forest) -/
+theorem obs_unique_mst {n : Nat} {es : List WEdge} {allow : Bool} {st1 st2 : Status}
+    {F1 F2 : Option (List WEdge)} {t1 t2 : Option Int}
+    (h1 : checkMst n es allow st1 F1 t1 = true) (h2 : checkMst n es allow st2 F2 t2 = true) :
+    st1 = st2 ∧ t1 = t2 := by
+  have s1 := checkMst_sound h1
+  have s2 := checkMst_sound h2
+  have wuniq : ∀ {A B : List WEdge}, IsMinSpanningForest es A → IsMinSpanningForest es B →
+      weightOf A = weightOf B := fun hA hB => Int.le_antisymm (hA.2 _ hB.1) (hB.2 _ hA.1)
+  cases st1 <;> cases F1 <;> cases t1 <;> simp only at s1 <;>
+  cases st2 <;> cases F2 <;> cases t2 <;> simp only at s2 <;>
+    first
+    | exact ⟨rfl, rfl⟩
+    | (refine ⟨rfl, ?_⟩
+       first
+       | (rw [s1.2.2, s2.2.2, wuniq s1.2.1 s2.2.1])
+       | (rw [s1.2.2.2, s2.2.2.2, wuniq s1.2.2.1 s2.2.2.1]))
+    | exact absurd s1.1 s2.1
+    | exact absurd s2.1 s1.1
+    | (have := s1.2.1; have := s2.2; simp_all)
+    | (have := s2.2.1; have := s1.2; simp_all)
+
+example : checkMst 3 [(0, 1, 2), (1, 2, 2), (0, 2, 2)] false .OPTIMAL (some [(0, 1, 2), (1, 2, 2)]) (some 4) = true ∧
+    checkMst 3 [(0, 1, 2), (1, 2, 2), (0, 2, 2)] false .OPTIMAL (some [(1, 2, 2), (0, 2, 2)]) (some 4) = true := by decide
+
+/-! ### Strongly connected components -/
+
+/-- T-spec: an accepted (canonicalised) partition lists exactly the mutual-reachability classes:
+every listed class is one, and every node lies in a listed class -/
+theorem checkScc_sound {n : Nat} {es : List WEdge} {cs : List (List Nat)} (h : checkScc n es cs = true) :
+    (∀ C ∈ cs, ∃ v, v < n ∧ v ∈ C ∧ ∀ u, u ∈ C ↔ (u < n ∧ Mutual es v u)) ∧
+    (∀ v, v < n → ∃ C ∈ cs, v ∈ C) := by
+  unfold checkScc at h
+  simp only [Bool.and_eq_true, beq_iff_eq] at h
+  obtain ⟨hv, rfl⟩ := h
+  exact ⟨fun C hC => canonScc_class hv hC, fun v hvn => canonScc_cover hv hvn⟩
+
+theorem obs_unique_scc {n : Nat} {es : List WEdge} {cs1 cs2 : List (List Nat)}
+    (h1 : checkScc n es cs1 = true) (h2 : checkScc n es cs2 = true) : cs1 = cs2 := by
+  unfold checkScc at h1 h2
+  simp only [Bool.and_eq_true, beq_iff_eq] at h1 h2
+  rw [h1.2, h2.2]
+
+example : checkScc 4 [(0, 1, 1), (1, 0, 1), (1, 2, 1), (2, 3, 1), (3, 2, 1), (0, 0, 1)] [[0, 1], [2, 3]] = true ∧
+    checkScc 4 [(0, 1, 1), (1, 0, 1), (1, 2, 1), (2, 3, 1), (3, 2, 1), (0, 0, 1)] [[0, 1], [2], [3]] = false := by decide
+
+/-! ### Topological order -/
+
+/-- T-spec: an accepted order contains every node and no edge goes backwards (so in particular
+there is no self loop); INFEASIBLE is accepted only together with a closed walk through an edge -/
+theorem checkTopo_sound {n : Nat} {es : List WEdge} {o : Option (List Nat)} (h : checkTopo n es o = true) :
+    match o with
+    | some ord => ord.length = n ∧ (∀ v, v < n → v ∈ ord) ∧ ∀ e ∈ es, posOf ord e.1 < posOf ord e.2.1
+    | none => ∃ e ∈ es, Reach es e.2.1 e.1 := by
+  unfold checkTopo at h
+  cases o with
+  | some ord =>
+    simp only at h ⊢
+    refine ⟨?_, ?_, checkTopoOrder_forward h⟩
+    · unfold checkTopoOrder at h
+      simp only [Bool.and_eq_true, beq_iff_eq] at h
+      exact h.1.1.2
+    · unfold checkTopoOrder at h
+      simp only [Bool.and_eq_true, List.all_eq_true, List.mem_range, List.contains_eq_mem,
+        decide_eq_true_eq] at h
+      exact h.1.2
+  | none =>
+    simp only [Bool.and_eq_true] at h ⊢
+    exact (hasCycle_iff h.1).1 h.2
+
+/-- the status is determined by the input: an order and INFEASIBLE can never both be accepted
+(any two accepted orders may differ; by `checkTopo_sound` each is valid) -/
+theorem obs_unique_topo {n : Nat} {es : List WEdge} {o1 o2 : Option (List Nat)}
+    (h1 : checkTopo n es o1 = true) (h2 : checkTopo n es o2 = true) : o1.isSome = o2.isSome := by
+  have key : ∀ {ord : List Nat}, checkTopo n es (some ord) = true → checkTopo n es none = true → False := by
+    intro ord ha hb
+    have sa := checkTopo_sound ha
+    have sb := checkTopo_sound hb
+    simp only at sa sb
+    obtain ⟨e, he, x, hx⟩ := sb
+    have h1 := topo_walk_le sa.2.2 hx
+    have h2 := sa.2.2 e he
+    omega
+  cases o1 <;> cases o2 <;> simp only [Option.isSome] <;>
+    first
+    | rfl
+    | exact (key h2 h1).elim
+    | exact (key h1 h2).elim
+
+example : checkTopo 4 [(0, 1, 1), (1, 2, 1), (0, 2, 1), (0, 1, 1)] (some [3, 0, 1, 2]) = true ∧
+    checkTopo 4 [(0, 1, 1), (1, 2, 1), (0, 2, 1), (0, 1, 1)] (some [0, 1, 3, 2]) = true ∧
+    checkTopo 3 [(0, 1, 1), (1, 2, 1), (2, 0, 1)] none = true := by decide
+
+/-! ### PageRank -/
+
+/-- the exact PageRank step contracts L1 distances by the damping factor -/
+theorem pagerank_contraction {n : Nat} {es : List (Nat × Nat)} {d : Rat} (hd : 0 ≤ d) (hv : validU n es = true)
+    (x y : List Rat) : l1dist n (prStep n es d x) (prStep n es d y) ≤ d * l1dist n x y :=
+  l1dist_step_le hd hv x y
+
+/-- the PageRank vector (the fixed point accepted by `isPrFixed`) is unique for `0 ≤ d < 1` -/
+theorem obs_unique_pagerank {n : Nat} {es : List (Nat × Nat)} {d : Rat} (hd : 0 ≤ d) (hd1 : d < 1)
+    (hv : validU n es = true) {x y : List Rat}
+    (hx : isPrFixed n es d x = true) (hy : isPrFixed n es d y = true) : x = y := by
+  obtain ⟨hlx, hfx⟩ := isPrFixed_iff.1 hx
+  obtain ⟨hly, hfy⟩ := isPrFixed_iff.1 hy
+  have h := pagerank_contraction hd hv x y
+  rw [hfx, hfy] at h
+  have h0 : l1dist n x y ≤ 0 := by
+    by_contra hc
+    have hpos : 0 < l1dist n x y := not_le.1 hc
+    have : d * l1dist n x y < 1 * l1dist n x y := mul_lt_mul_of_pos_right hd1 hpos
+    linarith
+  exact list_eq_of_l1dist_zero hlx hly h0
+
+example : isPrFixed 2 [(0, 1), (1, 0)] (17 / 20) [1 / 2, 1 / 2] = true ∧ validU 2 [(0, 1), (1, 0)] = true := by
+  decide +kernel
+
+/-- a-posteriori error bound: if `y` is one step after `x`, then
+`(1 - d)·‖y - x*‖₁ ≤ d·‖y - x‖₁` for the PageRank vector `x*` -/
+theorem pagerank_error_bound {n : Nat} {es : List (Nat × Nat)} {d : Rat} (hd : 0 ≤ d) (hv : validU n es = true)
+    {xs : List Rat} (hxs : isPrFixed n es d xs = true) (x : List Rat) :
+    (1 - d) * l1dist n (prStep n es d x) xs ≤ d * l1dist n (prStep n es d x) x := by
+  obtain ⟨_, hfx⟩ := isPrFixed_iff.1 hxs
+  have h1 := pagerank_contraction hd hv x xs
+  rw [hfx] at h1
+  have h2 := l1dist_triangle n x (prStep n es d x) xs
+  have h3 := l1dist_comm n x (prStep n es d x)
+  have : d * l1dist n x xs ≤ d * (l1dist n x (prStep n es d x) + l1dist n (prStep n es d x) xs) :=
+    mul_le_mul_of_nonneg_left h2 hd
+  nlinarith
+
+/-- the stopping rule of both back-ends (largest change `≤ tol`) bounds every score's distance to the
+exact PageRank value: `(1 - d)·|y_v - x*_v| ≤ d·n·tol`; with `n·d ≤ 10` this is the bound
+`10·tol/(1-d)` the check uses -/
+theorem pagerank_tol_bound {n : Nat} {es : List (Nat × Nat)} {d tol : Rat} (hd : 0 ≤ d) (hd1 : d < 1)
+    (hv : validU n es = true) {xs : List Rat} (hxs : isPrFixed n es d xs = true) (x : List Rat)
+    (hstop : ∀ v, v < n → |(prStep n es d x).getD v 0 - x.getD v 0| ≤ tol) {v : Nat} (hvn : v < n) :
+    (1 - d) * |(prStep n es d x).getD v 0 - xs.getD v 0| ≤ d * (n * tol) := by
+  have h1 := pagerank_error_bound hd hv hxs x
+  have h2 := l1dist_le_of_entries (prStep n es d x) x tol hstop
+  have h3 := entry_le_l1dist (n := n) (prStep n es d x) xs hvn
+  have h4 : (1 - d) * |(prStep n es d x).getD v 0 - xs.getD v 0| ≤ (1 - d) * l1dist n (prStep n es d x) xs :=
+    mul_le_mul_of_nonneg_left h3 (by linarith)
+  have h5 : d * l1dist n (prStep n es d x) x ≤ d * (n * tol) := mul_le_mul_of_nonneg_left h2 hd
+  linarith
+
+/-! ### Adapters -/
+
+/-- the repaired undirected expansion of `_floyd_warshall_rust` poses the same shortest-path
+problem as `floyd_warshall(..., directed=False)` in python: every distance statement transfers -/
+theorem adapter_fw_same_problem (directed : Bool) (es : List WEdge) (s v : Nat) (o : Option Int) :
+    IsDist (adapterFwEdges directed es) s v o ↔ IsDist (pythonFwEdges directed es) s v o := by
+  apply isDist_congr
+  intro e
+  unfold adapterFwEdges pythonFwEdges
+  cases directed with
+  | true => simp
+  | false =>
+    simp only [Bool.false_eq_true, if_false, fwExpand, symW, List.mem_flatMap, List.mem_append, List.mem_map,
+      List.mem_cons, List.not_mem_nil, or_false]
+    constructor
+    · rintro ⟨a, ha, rfl | rfl⟩
+      · exact Or.inl ha
+      · exact Or.inr ⟨a, ha, rfl⟩
+    · rintro (h | ⟨a, ha, rfl⟩)
+      · exact ⟨e, h, Or.inl rfl⟩
+      · exact ⟨a, ha, Or.inr rfl⟩
+
+example : adapterFwEdges false [(0, 1, 5), (0, 1, 2)] = [(0, 1, 5), (1, 0, 5), (0, 1, 2), (1, 0, 2)] := by decide
+
+/-- the expansion as it is on the unchanged tree (first weight per pair wins) does **not** pose
+the same problem: on the multigraph `{0-1 (5), 0-1 (2)}` the distance 0→1 becomes 5 instead of 2 -/
+theorem adapter_fw_first_not_same :
+    ¬ ∀ (es : List WEdge) (s v : Nat) (o : Option Int),
+        IsDist (fwExpandFirst es) s v o ↔ IsDist (pythonFwEdges false es) s v o := by
+  intro h
+  have h5 : IsDist (fwExpandFirst [(0, 1, 5), (0, 1, 2)]) 0 1 (some 5) :=
+    (checkDist_sound (n := 2) (lvl := [0, 1]) (d := [some 0, some 5]) (by decide)).2 1 (by decide)
+  have h2 : IsDist (pythonFwEdges false [(0, 1, 5), (0, 1, 2)]) 0 1 (some 2) :=
+    (checkDist_sound (n := 2) (lvl := [0, 1]) (d := [some 0, some 2]) (by decide)).2 1 (by decide)
+  have := isDist_unique ((h _ _ _ _).1 h5) h2
+  cases this
+
+/-- result conversion of the repaired `_bfs_edges_rust` / `_dfs_edges_rust` (without target):
+sorting *any* duplicate-free enumeration of the reachable set (the kernel's visit order) gives the
+value the python back-end returns -/
+theorem adapter_traversal_same_value {n : Nat} {es : List WEdge} (hv : validW n es = true) {s : Nat}
+    {order : List Nat} (hnd : order.Nodup) (hmem : ∀ v, v ∈ order ↔ (v < n ∧ Reach es s v)) :
+    sortNat order = reachSorted n es s := by
+  apply sorted_ext _ _ (pairwise_sortNat hnd) (pairwise_reachSorted n es s)
+  intro x
+  rw [mem_sortNat, hmem, mem_reachSorted hv]
+
+example : sortNat (rustBfs 3 [(0, 2, 1), (0, 1, 1)] 0) = reachSorted 3 [(0, 2, 1), (0, 1, 1)] 0 := by decide
+
+/-- … while the conversion on the unchanged tree (the raw visit order) is not that value -/
+theorem adapter_traversal_old_not_same :
+    ∃ (n : Nat) (es : List WEdge) (s : Nat), validW n es = true ∧ s < n ∧
+      rustBfs n es s ≠ reachSorted n es s ∧ rustDfs n es s ≠ reachSorted n es s :=
+  ⟨3, [(0, 2, 1), (2, 1, 1)], 0, by decide⟩
+
+/-- status of a found DFS path: repaired adapter agrees with python, the old one does not -/
+theorem adapter_dfs_status_same : adapterDfsFoundStatus = pyDfsFoundStatus := rfl
+theorem adapter_dfs_status_old_not_same : adapterDfsFoundStatusOld ≠ pyDfsFoundStatus := by decide
+
+/-- `_kruskal_rust` maps (edges chosen, `allow_forest`) to the same status as python's `kruskal`
+(a spanning forest never has more than `n - 1` edges) -/
+theorem adapter_kruskal_status_same (k n : Nat) (allow : Bool) (hk : k ≤ n - 1) :
+    adapterKruskalStatus k n allow = pyKruskalStatus k n allow := by
+  unfold adapterKruskalStatus pyKruskalStatus
+  by_cases h : k = n - 1
+  · subst h
+    simp
+  · have : k < n - 1 := by omega
+    simp [h, this]
+
+/-- the keyword defaults the adapters repeat are the defaults of the python functions (constants
+regenerated from the working tree on every run: `Solvor/Gen/BackendConsts.lean`) -/
+theorem adapter_defaults_same :
+    Solvor.Gen.Backend.rsPrDamping_bits = Solvor.Gen.Backend.pyPrDamping_bits ∧
+    Solvor.Gen.Backend.rsPrMaxIter = Solvor.Gen.Backend.pyPrMaxIter ∧
+    Solvor.Gen.Backend.rsPrTol_bits = Solvor.Gen.Backend.pyPrTol_bits ∧
+    Solvor.Gen.Backend.rsFwDirected = Solvor.Gen.Backend.pyFwDirected ∧
+    Solvor.Gen.Backend.rsKruskalAllowForest = Solvor.Gen.Backend.pyKruskalAllowForest := by decide
+
+example : adapterKruskalStatus 1 3 true = .FEASIBLE ∧ adapterKruskalStatus 2 3 false = .OPTIMAL := by decide
 
 end Solvor.Backend
